@@ -528,3 +528,34 @@ M("arcs-ascending-append", ["~C12"], KSUB,
   "            for l in range(k - 1, -1, -1):\n                if distances[l] != c.FLOAT_MAX:\n                    if distances[l] > self.density:\n                        self.density = distances[l]\n                    if distances[l] > self.nodes[i].radius:\n                        self.nodes[i].radius = distances[l]\n                    if distances[l] > max_distances[l]:\n                        max_distances[l] = distances[l]\n\n                    self.nodes[i].adjacency.insert(0, neighbours_idx[l])",
   "            for l in range(k):\n                if distances[l] != c.FLOAT_MAX:\n                    if distances[l] > self.density:\n                        self.density = distances[l]\n                    if distances[l] > self.nodes[i].radius:\n                        self.nodes[i].radius = distances[l]\n                    if distances[l] > max_distances[l]:\n                        max_distances[l] = distances[l]\n\n                    self.nodes[i].adjacency.append(neighbours_idx[l])")
 M("pdf-constant-rewritten", ["~C12"], KSUB, "        self.constant = 2 * self.density / 9", "        self.constant = self.density * (2 / 9)")
+
+# ---------------------------------------------------------------------------
+# k selection (C16)
+# ---------------------------------------------------------------------------
+M("learn-revert-f5", ["C16"], KNN, "        max_acc = -1.0\n", "        max_acc = 0.0\n")
+M("learn-nonstrict", ["C16"], KNN, "            if acc > max_acc:\n                max_acc = acc\n                best_k = k",
+  "            if acc >= max_acc:\n                max_acc = acc\n                best_k = k")
+M("learn-range-excludes-max", ["C16"], KNN, "        for k in range(1, self.max_k + 1):", "        for k in range(1, self.max_k):")
+M("learn-swapped-accuracy-args", ["C16"], KNN, "            acc = g.opf_accuracy(Y_val, preds)", "            acc = g.opf_accuracy(preds, Y_val)")
+M("learn-train-accuracy", ["C16"], KNN, "            preds = self.predict(X_val, I_val)\n\n            acc = g.opf_accuracy(Y_val, preds)",
+  "            preds = self.predict(X_train, I_train)\n\n            acc = g.opf_accuracy(Y_train, preds)")
+M("learn-bestk-not-updated", ["C16"], KNN, "                max_acc = acc\n                best_k = k\n", "                max_acc = acc\n            best_k = k\n")
+M("learn-pdf-stale-k", ["C16"], KNN,
+  "            self.subgraph.calculate_pdf(\n                k, self.distance_fn, self.pre_computed_distance, self.pre_distances\n            )\n\n            self._clustering()",
+  "            self.subgraph.calculate_pdf(\n                1, self.distance_fn, self.pre_computed_distance, self.pre_distances\n            )\n\n            self._clustering()")
+M("learn-final-uses-max-k", ["C16"], KNN,
+  "        self.subgraph.create_arcs(\n            self.subgraph.best_k,\n            self.distance_fn,", "        self.subgraph.create_arcs(\n            self.max_k,\n            self.distance_fn,")
+M("learn-install-last-k", ["C16"], KNN, "        self.subgraph.best_k = best_k\n\n    def fit(", "        self.subgraph.best_k = k\n\n    def fit(")
+M("learn-predict-before-cluster", ["C16"], KNN,
+  "            self._clustering()\n\n            preds = self.predict(X_val, I_val)\n", "            preds = self.predict(X_val, I_val)\n\n            self._clustering()\n")
+M("cut-nonstrict", ["C16"], UNS, "                if cut < min_cut:", "                if cut <= min_cut:")
+M("cut-sentinel-zero", ["C16"], UNS, "        min_cut = c.FLOAT_MAX\n", "        min_cut = 0.0\n")
+M("cut-range-off", ["C16"], UNS, "        for k in range(min_k, max_k + 1):", "        for k in range(min_k + 1, max_k + 1):")
+M("cut-stop-when-small", ["C16"], UNS, "            if min_cut != 0.0:", "            if min_cut > 0.5:")
+M("cut-density-rank-shift", ["C16"], UNS, "                self.subgraph.density = max_distances[k - 1]", "                self.subgraph.density = max_distances[k - 2]")
+M("cut-clustering-stale-k", ["C16"], UNS, "                self._clustering(k)\n\n                cut = self._normalized_cut(k)",
+  "                self._clustering(min_k)\n\n                cut = self._normalized_cut(k)")
+M("cut-final-max-k", ["C16"], UNS, "        self.subgraph.best_k = best_k\n\n        self.subgraph.create_arcs(\n            best_k,",
+  "        self.subgraph.best_k = best_k\n\n        self.subgraph.create_arcs(\n            max_k,")
+M("fit-final-clustering-min-k", ["C16"], UNS, "        self._clustering(self.subgraph.best_k)\n", "        self._clustering(self.min_k)\n")
+M("learn-bestk-preinit", ["~C16"], KNN, "        max_acc = -1.0\n", "        max_acc = 0.0\n        best_k = 1\n")
